@@ -47,4 +47,4 @@ META_CONTRACTS = [clauses_only(c, META, "C16", "Meta") for c in (
     transform.Reduce, transform.ReduceTuple, transform.Cumulative, transform.Diff,
     regroup.Flatten, regroup.Unflatten, regroup.Reshape, join.Stack, join.Concatenate, arith.ScalarOperation, arith.Operation,
     interp.Interp1D, reshape.Transpose, reshape.SwapAxes, reshape.RollAxis, reshape.NewAxis, reshape.Squeeze, reshape.Repeat,
-    missing.FillNa, missing.SetNa, missing.CompressAxis, missing.DropNa1D)]
+    missing.FillNa, missing.SetNa, missing.CompressAxis, missing.DropNa1D, align.ReindexAxis, align.ReindexLike, reshape.Broadcast)]
